@@ -20,11 +20,33 @@ package schedule
 //@ opaque github.com/tikv/pd/server/schedule/filter::NewPlacementSafeguard, (*selectedStores).TotalCountByStore, (*selectedStores).Get, (*selectedStores).Put
 //@ pure otherPeerOn(region *core.RegionInfo, self uint64, id uint64) = id != self && hasPeerOn(region, id)
 
+// Every engine context carries the scatter store-state filter (MoveRegion and ScatterRegion set) as the last of its
+// filters (newEngineContext appends it): a store that passes the context's filters is in state Up.
+//@ pure scatterUp(f filter.Filter) = typeisptr(f, filter.StoreStateFilter) && asptr(f, filter.StoreStateFilter) != nil && asptr(f, filter.StoreStateFilter).MoveRegion && asptr(f, filter.StoreStateFilter).ScatterRegion
+//@ pure upFiltered(c engineContext) = allocated(c.filters) && len(c.filters) > 0 && scatterUp(c.filters[len(c.filters)-1])
+//@ pure scStoreId(s *core.StoreInfo) = ite(s.meta == nil, 0, s.meta.Id)
+//@ pure scStoreState(s *core.StoreInfo) = ite(s.meta == nil, 0, s.meta.State)
+//@ func newSelectedStores
+//@   assumed
+//@   modifies nothing
+//@ func newEngineContext
+//@   props C11
+//@   ensures [carries-the-scatter-state-filter] upFiltered(result)
+//@   modifies nothing
+
 // selectCandidates: every candidate is a store that has not been selected for another peer of the region and does
-// not hold another peer of it (the peer's own store may be a candidate).
+// not hold another peer of it (the peer's own store may be a candidate), and is an Up store of the cluster view.
 //@ func (*RegionScatterer).selectCandidates
 //@   props C11
 //@   dispatch Filter.Target passT
+//@   dispatch Filter.Target passT for *filter.StoreStateFilter
+//@   requires [context-filters-store-state] upFiltered(context)
+//@   at Target 1 assert [store-state-in-range] store != nil && arg0 != nil && (store.meta != nil ==> 0 <= store.meta.State && store.meta.State <= 2)
+//@   at Target 1 assert [state-filter-accepts-only-up] forall k :: {filters[k]} 0 <= k && k < len(filters) && scatterUp(filters[k]) && ufb("passT", filters[k], arg0, store) ==> scStoreState(store) == 0
+//@   at Target 1 after assert [accepted-store-is-up] r0 ==> scStoreState(store) == 0
+//@   at Target 1 assert [state-filter-in-list] exists k :: 0 <= k && k < len(filters) && scatterUp(filters[k])
+//@   ensures [candidates-are-up-stores] forall i :: {result[i]} 0 <= i && i < len(result) ==> (exists st *core.StoreInfo :: ufb("clusterStore", r.cluster, st) && scStoreId(st) == result[i] && scStoreState(st) == 0)
+//@   loop 2 invariant forall i :: {candidates[i]} 0 <= i && i < len(candidates) ==> (exists st *core.StoreInfo :: ufb("clusterStore", r.cluster, st) && scStoreId(st) == candidates[i] && scStoreState(st) == 0)
 //@   requires r != nil && r.cluster != nil && region != nil && region.meta != nil
 //@   loop 1 invariant forall id uint64 :: {in(otherPeerStores, id)} in(otherPeerStores, id) == (exists k :: 0 <= k && k <= rangeindex && pstore(region.meta.Peers[k]) == id && id != sourceStoreID)
 //@   loop 2 invariant forall i :: {candidates[i]} 0 <= i && i < len(candidates) ==> !in(selectedStores, candidates[i]) && !otherPeerOn(region, sourceStoreID, candidates[i])
@@ -44,6 +66,32 @@ package schedule
 //@ func (*RegionScatterer).scatterRegion$1
 //@   props C11
 //@   requires r != nil && r.cluster != nil && region != nil && region.meta != nil && (forall k uint64 :: {in(peers, k)} in(peers, k) ==> peers[k] != nil) && peers != targetPeers
+//@   requires [context-filters-store-state] upFiltered(context)
 //@   loop 1 modifies targetPeers[*], selectedStores[*], ghost evres
 //@   at selectStore 1 after assert [stays-or-moves-to-a-free-store] r0 == peer || (r0 != nil && r0.Role == peer.Role && !in(selectedStores, r0.StoreId) && !otherPeerOn(region, pstore(peer), r0.StoreId))
+//@   at selectStore 1 after assert [stays-or-moves-to-an-up-store] r0 == peer || (exists st *core.StoreInfo :: ufb("clusterStore", r.cluster, st) && scStoreId(st) == r0.StoreId && scStoreState(st) == 0)
+//@   modifies targetPeers[*], selectedStores[*], ghost evres
+
+// Every engine context the scatterer ever uses carries the scatter store-state filter: NewRegionScatterer builds the
+// ordinary one with newEngineContext, scatterRegion creates the special-engine ones with newEngineContext and hands
+// only such contexts to the scatter loop.
+//@ pure scattererOK(r *RegionScatterer) = upFiltered(r.ordinaryEngine) && r.specialEngines != nil && (forall e string :: {in(r.specialEngines, e)} in(r.specialEngines, e) ==> upFiltered(r.specialEngines[e]))
+//@ func NewRegionScatterer
+//@   props C11
+//@   ensures [contexts-filter-store-state] result != nil && scattererOK(result)
+//@   modifies nothing
+//@ func (*RegionScatterer).Put
+//@   assumed
+//@   modifies nothing
+//@ func (*RegionScatterer).selectAvailableLeaderStores
+//@   assumed
+//@   modifies nothing
+//@ pure peerMapOK(m map[uint64]*metapb.Peer) = m != nil && allocated(m) && (forall k uint64 :: {in(m, k)} in(m, k) ==> m[k] != nil)
+//@ func (*RegionScatterer).scatterRegion
+//@   props C11
+//@   requires r != nil && r.cluster != nil && region != nil && region.meta != nil && nonnil(region.meta.Peers) && scattererOK(r)
+//@   ensures [contexts-filter-store-state] scattererOK(r)
+//@   loop 1 invariant peerMapOK(ordinaryPeers) && specialPeers != nil && allocated(specialPeers) && (forall e string :: {in(specialPeers, e)} in(specialPeers, e) ==> peerMapOK(specialPeers[e]))
+//@   loop 2 invariant upFiltered(r.ordinaryEngine) && r.specialEngines != nil && (forall e string :: {in(r.specialEngines, e)} in(r.specialEngines, e) ==> upFiltered(r.specialEngines[e])) && r.cluster != nil && (forall e string :: {in(specialPeers, e)} in(specialPeers, e) ==> peerMapOK(specialPeers[e]) && specialPeers[e] != targetPeers)
+//@   loop 2 modifies r.specialEngines[*], targetPeers[*], selectedStores[*], ghost evres
 //@   modifies *
